@@ -8,6 +8,9 @@
                    rtr_init, rtr_mgr_init                                    return values + stored fields
                    rtr_sync on a scripted mock transport (Cache Response + End of Data) -> the socket's fields
                    rtr_wait_for_sync with a fake clock -> the timeout the mock receive function was given
+                   rtr_wait_for_sync while the PDU arrives in fragments at scripted times (at the deadline -1/0/+1,
+                     header completed at the deadline, remainder at RTR_RECV_TIMEOUT -1/0/+1): EVERY call of the
+                     transport receive function with its length, timeout argument and clock reading
                    rtr_start (state-machine thread) against a scripted cache -> trace of sends / waits
                  on boundary values (every range end +-1, 0, 2^32-1) x 4 modes (+ undeclared mode values) x 3
                  fields x protocol versions 0/1 (+ live downgrade, + mismatch), plus seeded random values.
@@ -26,7 +29,8 @@ THEOREMS = ["Rtr.C17.constants_are_rfc8210", "Rtr.C17.bounds_are_rfc8210", "Rtr.
             "Rtr.C17.in_range_unless_accept_any", "Rtr.C17.history_in_range", "Rtr.C17.accept_any_leaves_range", "Rtr.C17.v0_never_changes",
             "Rtr.C17.sync_timers", "Rtr.C17.sync_v0_never_changes", "Rtr.C17.sync_in_range", "Rtr.C17.poll_deadline",
             "Rtr.C17.poll_deadline_bounded", "Rtr.C17.notify_polls_immediately", "Rtr.C17.notify_then_query",
-            "Rtr.C17.trace_polls_within_timeout"]
+            "Rtr.C17.trace_polls_within_timeout", "Rtr.C17.recv_slack", "Rtr.C17.frag_poll_deadline",
+            "Rtr.C17.frag_then_query"]
 MODULES = ["RtrProps.C17"]
 
 # ---- the fixed specification (RFC 8210 section 6; rtr.h / rtr_private.h documentation) -------------------
@@ -37,6 +41,15 @@ MODES = [IGNORE_ANY, ACCEPT_ANY, DEFAULT_MIN_MAX, IGNORE_ON_FAILURE]
 TYPE = {0: "expire", 1: "refresh", 2: "retry"}           # enum rtr_interval_type
 RTR_SUCCESS, RTR_ERROR, RTR_INVALID_PARAM = 0, -1, -2
 U32MAX = 2 ** 32 - 1
+# a PDU on the wire: 8-byte header, then the rest; once the header has arrived the client grants the cache
+# RTR_RECV_TIMEOUT = 60 s for the rest (packets_private.h) - the only slack on "no later than the refresh interval"
+HDR_LEN = 8
+RECV_SLACK = 60
+PDU_BODY = {"notify": 4, "reset": 0, "pfx4": 12}
+# classes of fragment timing every run has to exercise (coverage gate)
+FRAG_CLASSES = ["header-fragment-at-deadline", "header-fragment-1s-before-deadline", "header-fragment-due-1s-after-deadline",
+                "header-complete-at-deadline", "remainder-at-slack-end", "remainder-due-1s-after-slack-end",
+                "complete-notify-in-fragments", "wait-already-overdue-with-fragments"]
 
 
 def in_range(field, v):
@@ -178,6 +191,8 @@ def gen(tier, r):
         ev = r.choice(["notify", "other", "timeout", "intr", "error"])
         ops.append(Op("wait %d %d %d %s" % (last, refresh, nw, ev), "wait", last=last, refresh=refresh, now=nw, ev=ev))
 
+    ops += gen_waitf(r, mult)
+
     # the state machine against a scripted cache
     for _ in range(40 * mult):
         mode = r.choice(MODES)
@@ -193,22 +208,175 @@ def gen(tier, r):
             return dict((k, rnd_u32(r)) for k in RANGE)
         s0 = sent_vals()
         evs = []
+        # the generator follows the prescribed timeline (spec side) so that fragments can be aimed at the deadline
+        cur, _ex = after_eod(mode, ver, dict(init), s0)
+        clock, last_sync = now0, now0
         for _ in range(r.randrange(0, 9)):
-            k = r.choice("NNTTXI")
-            if k in "NT":
+            k = r.choice("NNTTXIFF")
+            t = max(0, last_sync + cur["refresh"] - clock)
+            if k == "F":
                 s = sent_vals()
-                evs.append((k, r.choice([0, 1, 4, 59, 3599, 100000]) if k == "N" else 0, s))
+                fr = aimed_frags(r, "notify", clock, clock + t)
+                evs.append((k, fr, s))
+                clock = spec_wait_end(fr, PDU_BODY["notify"], clock, clock + t)[0]
+                cur, _ex = after_eod(mode, ver, cur, s)
+                last_sync = clock
+            elif k in "NT":
+                s = sent_vals()
+                dt = r.choice([0, 1, 4, 59, 3599, 100000]) if k == "N" else 0
+                evs.append((k, dt, s))
+                clock += t if k == "T" else min(dt, t)
+                cur, _ex = after_eod(mode, ver, cur, s)
+                last_sync = clock
             else:
-                evs.append((k, r.choice([0, 1, 7, 3000, 90000]), None))
-        words = ["fsm", str(mode), str(ver), str(now0), str(init["refresh"]), str(init["expire"]), str(init["retry"]),
-                 str(s0["expire"]), str(s0["refresh"]), str(s0["retry"])]
-        for k, dt, s in evs:
-            if s is not None:
-                words.append("%s:%d:%d:%d:%d" % (k, dt, s["expire"], s["refresh"], s["retry"]))
-            else:
-                words.append("%s:%d" % (k, dt))
-        ops.append(Op(" ".join(words), "fsm", mode=mode, ver=ver, now=now0, init=init, s0=s0, evs=evs))
+                dt = r.choice([0, 1, 7, 3000, 90000])
+                evs.append((k, dt, None))
+                clock += min(dt, t)
+        ops.append(fsm_op(mode, ver, now0, init, s0, evs))
     return ops
+
+
+def fsm_op(mode, ver, now0, init, s0, evs):
+    words = ["fsm", str(mode), str(ver), str(now0), str(init["refresh"]), str(init["expire"]), str(init["retry"]),
+             str(s0["expire"]), str(s0["refresh"]), str(s0["retry"])]
+    for k, dt, s in evs:
+        if k == "F":
+            words.append("F:%s:%d:%d:%d" % (",".join("%d.%d" % f for f in dt), s["expire"], s["refresh"], s["retry"]))
+        elif s is not None:
+            words.append("%s:%d:%d:%d:%d" % (k, dt, s["expire"], s["refresh"], s["retry"]))
+        else:
+            words.append("%s:%d" % (k, dt))
+    return Op(" ".join(words), "fsm", mode=mode, ver=ver, now=now0, init=init, s0=s0, evs=evs)
+
+
+# ---- PDUs that arrive in fragments ----------------------------------------------------------------
+
+SIZE_PATTERNS = {
+    "notify": [(12,), (8, 4), (1, 7, 4), (7, 1, 4), (1, 1, 6, 2, 2), (4, 4, 1, 3), (1,) * 12, (8, 3, 1), (3,), (8,), (7,), (8, 3), (20,), (5, 30)],
+    "reset": [(8,), (1, 7), (7, 1), (4, 3), (2, 2, 2, 2)],
+    "pfx4": [(20,), (8, 12), (1, 7, 11, 1), (8, 6), (7, 13)],
+}
+MAX_DT = 999999
+
+
+def frags_from_times(sizes, times, start):
+    """fragment i is due at absolute time times[i] (non-decreasing, >= start) -> [(dt, n)] or None if a gap is too long"""
+    fr, prev = [], start
+    for n, t in zip(sizes, times):
+        if t < prev or t - prev > MAX_DT:
+            return None
+        fr.append((t - prev, n))
+        prev = t
+    return fr
+
+
+def aimed_frags(r, kind, start, limit):
+    """a fragment script whose critical fragment is aimed at the deadline `limit` (-1, 0, +1) and whose remainder is aimed
+    at the end of the RTR_RECV_TIMEOUT slack; start <= limit"""
+    for _ in range(20):
+        sizes = r.choice(SIZE_PATTERNS[kind])
+        j = r.randrange(len(sizes))
+        anchor = limit + r.choice([-1, 0, 0, 1, -2, 0])
+        if anchor < start:
+            anchor = start
+        times = []
+        for i in range(len(sizes)):
+            if i < j:
+                times.append(min(anchor, start + r.choice([0, 0, 1, i])))
+            elif i == j:
+                times.append(anchor)
+            else:
+                times.append(times[-1] + r.choice([0, 0, 1, RECV_SLACK - 1, RECV_SLACK, RECV_SLACK + 1, 7]))
+        times = [max(times[:i + 1]) for i in range(len(times))]
+        fr = frags_from_times(sizes, times, start)
+        if fr is not None:
+            return fr
+    return [(0, 12)]
+
+
+def waitf_op(last, refresh, now, kind, fr):
+    return Op(("waitf %d %d %d %s %s" % (last, refresh, now, kind, " ".join("%d.%d" % f for f in fr))).strip(), "waitf",
+              last=last, refresh=refresh, now=now, pdu=kind, frags=list(fr))
+
+
+def gen_waitf(r, mult):
+    ops = []
+    # systematic core: every size pattern x which fragment is the critical one x where it lands relative to the deadline
+    # x where the following fragments land relative to the end of the slack
+    for refresh in [1, 5, 3600, 86400, 0, U32MAX] + ([2, 60] if mult > 4 else []):
+        for last in [1000]:
+            offs = sorted(set(d for d in [0, 1, refresh - 1, refresh, refresh + 1, refresh // 2] if d >= 0))
+            for d in offs:
+                start = last + d
+                limit = max(start, last + refresh)
+                for kind in ("notify", "reset", "pfx4"):
+                    pats = SIZE_PATTERNS[kind]
+                    if kind != "notify" and refresh != 5:
+                        pats = pats[:1]
+                    for sizes in pats:
+                        for j in range(len(sizes)):
+                            if len(sizes) > 5 and j not in (0, 6, 7, 8, 11):
+                                continue
+                            for a in (-1, 0, 1):
+                                anchor = limit + a
+                                if anchor < start:
+                                    continue
+                                after = [0, 1, RECV_SLACK - 1, RECV_SLACK, RECV_SLACK + 1][(j + a + len(sizes) + d) % 5]
+                                times = [start] * j + [anchor] + [anchor + after] * (len(sizes) - j - 1)
+                                fr = frags_from_times(sizes, times, start)
+                                if fr is not None:
+                                    ops.append(waitf_op(last, refresh, start, kind, fr))
+    # one byte in the last second of the refresh interval, then silence (the stretch a cache would try)
+    for refresh in [1, 5, 100, 3600, 86400]:
+        for n in (1, 7):
+            ops.append(waitf_op(1000, refresh, 1000, "notify", [(refresh, n)]))
+            ops.append(waitf_op(1000, refresh, 1000, "notify", [(max(0, refresh - 1), n), (1, 1)]))
+        ops.append(waitf_op(1000, refresh, 1000, "notify", []))
+    # byte by byte, one per second, deadline somewhere in the middle
+    for refresh in [3, 8, 11, 12, 13, 70, 75]:
+        ops.append(waitf_op(500, refresh, 500, "notify", [(1, 1)] * 12))
+        ops.append(waitf_op(500, refresh, 500, "pfx4", [(1, 1)] * 20))
+        ops.append(waitf_op(500, refresh, 500 + refresh + 5, "notify", [(0, 1)] * 12))
+    for _ in range(60 * mult):
+        refresh = r.choice([1, 2, 5, 60, 3600, 86400, 0, U32MAX, rnd_u32(r)])
+        last = r.randrange(0, 10 ** 9)
+        start = max(0, last + r.choice([0, 1, refresh - 1, refresh, refresh + 2, r.randrange(0, refresh + 2)]))
+        limit = max(start, last + refresh)
+        kind = r.choice(["notify", "notify", "reset", "pfx4"])
+        if r.random() < 0.7:
+            fr = aimed_frags(r, kind, start, limit)
+        else:
+            fr = [(r.choice([0, 0, 1, 2, 59, 60, 61, r.randrange(0, 200)]), r.randrange(1, 14)) for _ in range(r.randrange(0, 8))]
+        ops.append(waitf_op(last, refresh, start, kind, fr))
+    return ops
+
+
+def spec_wait_end(frags, body, start, limit):
+    """the prescribed course of one wait, from the cache's side: fragment i is due at start + dt_1 + .. + dt_i.  The header
+    must be complete by `limit` (= max(start, last synchronisation + refresh interval)), the remainder within RECV_SLACK of
+    the header's completion.  returns (time the wait ends, 'complete' | 'expired' | 'expired-in-remainder')"""
+    t, got, hdr_at = start, 0, None
+    for dt, n in frags:
+        t += dt
+        if hdr_at is None:
+            if t > limit:
+                return limit, "expired"
+            got += n
+            if got >= HDR_LEN:
+                hdr_at = t
+                if body == 0:
+                    return t, "complete"
+                if got >= HDR_LEN + body:
+                    return t, "complete"
+        else:
+            if t > hdr_at + RECV_SLACK:
+                return hdr_at + RECV_SLACK, "expired-in-remainder"
+            got += n
+            if got >= HDR_LEN + body:
+                return t, "complete"
+    if hdr_at is None:
+        return limit, "expired"
+    return hdr_at + RECV_SLACK, "expired-in-remainder"
 
 
 def eod_op(mode, sv, pv, cur, sent, now):
@@ -239,11 +407,22 @@ def parse_op(line):
             return Op(line, "setmode", cur=int(w[1]), o=int(w[2]))
         if w[0] == "wait":
             return Op(line, "wait", last=int(w[1]), refresh=int(w[2]), now=int(w[3]), ev=w[4])
+        if w[0] == "waitf":
+            fr = []
+            for t in w[5:]:
+                a, b = t.split(".")
+                fr.append((int(a), int(b)))
+            if w[4] not in PDU_BODY:
+                return None
+            return Op(line, "waitf", last=int(w[1]), refresh=int(w[2]), now=int(w[3]), pdu=w[4], frags=fr)
         if w[0] == "fsm":
             evs = []
             for t in w[10:]:
                 f = t.split(":")
-                if f[0] in "NT":
+                if f[0] == "F":
+                    fr = [tuple(int(x) for x in g.split(".")) for g in f[1].split(",")]
+                    evs.append(("F", fr, {"expire": int(f[2]), "refresh": int(f[3]), "retry": int(f[4])}))
+                elif f[0] in "NT":
                     evs.append((f[0], int(f[1]), {"expire": int(f[2]), "refresh": int(f[3]), "retry": int(f[4])}))
                 else:
                     evs.append((f[0], int(f[1]), None))
@@ -350,6 +529,19 @@ def oracle(op, out):
             if op.ev not in ("notify", "timeout") and rc == RTR_SUCCESS:
                 msgs.append("rtr_wait_for_sync = success on %s" % op.ev)
             return msgs
+        if op.kind == "waitf":
+            rc, end = int(w[0]), int(w[1])
+            calls = [parse_call(i) for i in w[2:]]
+            limit = max(op.now, op.last + op.refresh)
+            msgs, sim_end, outcome, classes = oracle_frag_calls(calls, op.frags, PDU_BODY[op.pdu], op.now, limit)
+            op.classes = classes
+            msgs += oracle_wait_end(end, op.frags, PDU_BODY[op.pdu], op.now, limit, op.pdu == "notify")
+            if not calls:
+                msgs.append("rtr_wait_for_sync did not call the transport receive function")
+            want_rc = RTR_ERROR if (outcome == "complete" and op.pdu != "notify") else RTR_SUCCESS
+            if not msgs and rc != want_rc:
+                msgs.append("rtr_wait_for_sync = %d after '%s' (%s PDU in fragments), expected %d" % (rc, outcome, op.pdu, want_rc))
+            return msgs
         if op.kind == "fsm":
             return oracle_fsm(op, w)
     except (ValueError, IndexError):
@@ -357,14 +549,102 @@ def oracle(op, out):
     return []
 
 
+def parse_call(it):
+    """R<len>:<timeout>@<now>"""
+    if it[0] != "R":
+        raise ValueError(it)
+    a, b = it[1:].split("@")
+    ln, t = a.split(":")
+    return int(ln), int(t), int(b)
+
+
+def oracle_frag_calls(calls, frags, body, start, limit):
+    """the poll-deadline clause on EVERY call of the transport receive function of one wait.  calls = [(len, timeout, now)];
+    the wait began at `start`; limit = max(start, last synchronisation + refresh interval).  While the header is incomplete
+    a timeout must be non-negative and must not reach beyond `limit`; for the remainder it must be non-negative and must
+    not reach beyond header completion + RECV_SLACK.  The transport is replayed from the fragment script to know how many
+    bytes each call obtained.  returns (messages, clock at the end, outcome, timing classes exercised)"""
+    msgs, classes = [], set()
+    fr = [[dt, n] for dt, n in frags]
+    got, clock, hdr_at, outcome = 0, start, None, "open"
+    for i, (ln, t, nw) in enumerate(calls):
+        if outcome != "open":
+            msgs.append("receive call #%d at t=%d after the wait was over (%s)" % (i + 1, nw, outcome))
+            break
+        if nw != clock:
+            msgs.append("receive call #%d at t=%d, but the previous transport call returned at t=%d" % (i + 1, nw, clock))
+            break
+        if t < 0:
+            msgs.append("receive call #%d at t=%d: negative timeout %d handed to the transport" % (i + 1, nw, t))
+        if hdr_at is None:
+            if nw + max(t, 0) > limit:
+                msgs.append("receive call #%d at t=%d (%d of %d header bytes read) was given timeout %d: it may block until t=%d, "
+                            "later than max(start of the wait %d, last synchronisation + refresh interval) = %d" % (
+                                i + 1, nw, got, HDR_LEN, t, nw + t, start, limit))
+            if i > 0 and nw == limit:
+                classes.add("header-fragment-at-deadline")
+            if i > 0 and nw == limit - 1:
+                classes.add("header-fragment-1s-before-deadline")
+            if fr and nw + fr[0][0] == limit + 1:
+                classes.add("header-fragment-due-1s-after-deadline")
+            if i == 0 and start == limit and fr:
+                classes.add("wait-already-overdue-with-fragments")
+        else:
+            if nw + max(t, 0) > hdr_at + RECV_SLACK:
+                msgs.append("receive call #%d at t=%d (remainder of the PDU, header complete at t=%d) was given timeout %d: it may "
+                            "block until t=%d, more than %d s after the header" % (i + 1, nw, hdr_at, t, nw + t, RECV_SLACK))
+            if nw == hdr_at + RECV_SLACK and nw > hdr_at:
+                classes.add("remainder-at-slack-end")
+            if fr and nw + fr[0][0] == hdr_at + RECV_SLACK + 1:
+                classes.add("remainder-due-1s-after-slack-end")
+        # the scripted transport
+        if fr and fr[0][0] <= t:
+            clock = nw + fr[0][0]
+            fr[0][0] = 0
+            k = min(fr[0][1], ln)
+            fr[0][1] -= k
+            if not fr[0][1]:
+                fr.pop(0)
+            got += k
+            if hdr_at is None and got >= HDR_LEN:
+                hdr_at = clock
+                if clock == limit and clock > start:
+                    classes.add("header-complete-at-deadline")
+            if got >= HDR_LEN + body:
+                outcome = "complete"
+                if len(calls) > 1 and body == PDU_BODY["notify"]:
+                    classes.add("complete-notify-in-fragments")
+        else:
+            clock = nw + max(t, 0)
+            outcome = "expired"
+    return msgs, clock, outcome, classes
+
+
+def oracle_wait_end(end, frags, body, start, limit, is_notify):
+    """when the wait ends (= when the state machine sends its Serial Query)"""
+    want, how = spec_wait_end(frags, body, start, limit)
+    bound = limit + (RECV_SLACK if how != "expired" else 0)
+    if end > bound:
+        return ["the wait that began at t=%d ends at t=%d: later than max(start, last synchronisation + refresh interval) = %d%s" % (
+            start, end, limit, " + %d s for the remainder of a PDU whose header arrived in time" % RECV_SLACK if how != "expired" else "")]
+    if how == "complete" and is_notify and end != want:
+        return ["the Serial Notify was complete at t=%d but the wait ends at t=%d (a notify is answered at once)" % (want, end)]
+    if end < start:
+        return ["the wait that began at t=%d ends at t=%d" % (start, end)]
+    return []
+
+
 def oracle_fsm(op, items):
     """walk the trace of transport calls of the real state-machine thread"""
     msgs = []
+    op.classes = set()
     if any(i.startswith("!") for i in items):
         return ["harness marker in trace: " + " ".join(i for i in items if i.startswith("!"))]
 
     def parse(it):
         k = it[0]
+        if k == "R":
+            return ("R",) + parse_call(it)
         a, b = it[1:].split("@")
         return k, int(a), int(b)
     tr = [parse(i) for i in items]
@@ -397,16 +677,38 @@ def oracle_fsm(op, items):
                 msgs.append("unexpected transport actions after the last scripted event: %s" % items[pos:pos + 3])
             break
         ek, dt, sent = evs.pop(0)
-        arrive = nw + (t if ek == "T" else min(dt, t))
-        if ek in "NT":
+        slack = 0
+        if ek == "F":
+            # a Serial Notify in fragments: every receive call of this wait is in the trace
+            calls = []
+            while pos < len(tr) and tr[pos][0] == "R":
+                calls.append(tr[pos][1:])
+                pos += 1
+            limit = max(nw, last_sync + cur["refresh"])
+            if not calls or calls[0][1] != t or calls[0][2] != nw:
+                msgs.append("wait at t=%d with timeout %d: the first receive call is %s" % (nw, t, calls[:1]))
+                break
+            m2, arrive, outcome, classes = oracle_frag_calls(calls, dt, PDU_BODY["notify"], nw, limit)
+            op.classes |= classes
+            msgs += m2
+            _want, how = spec_wait_end(dt, PDU_BODY["notify"], nw, limit)
+            slack = RECV_SLACK if how != "expired" else 0
+            if pos < len(tr) and tr[pos][0] == "S":
+                msgs += oracle_wait_end(tr[pos][2], dt, PDU_BODY["notify"], nw, limit, True)
+            if msgs:
+                break
+        else:
+            arrive = nw + (t if ek == "T" else min(dt, t))
+        if ek in "NTF":
             # the poll: a Serial Query, immediately
             if pos >= len(tr) or tr[pos][0] != "S" or tr[pos][1] != 1:
                 msgs.append("%s at t=%d is not followed by a Serial Query (next: %s)" % (
-                    "Serial Notify" if ek == "N" else "expiry of the refresh interval", arrive, items[pos:pos + 1]))
+                    "Serial Notify" if ek == "N" else "end of the fragmented wait" if ek == "F" else "expiry of the refresh interval",
+                    arrive, items[pos:pos + 1]))
                 break
             if tr[pos][2] != arrive:
                 msgs.append("Serial Query sent at t=%d, the %s was at t=%d" % (tr[pos][2], "notify" if ek == "N" else "expiry", arrive))
-            if tr[pos][2] > max(nw, last_sync + cur["refresh"]):
+            if tr[pos][2] > max(nw, last_sync + cur["refresh"]) + slack:
                 msgs.append("poll at t=%d is later than last synchronisation %d + refresh %d" % (tr[pos][2], last_sync, cur["refresh"]))
             pos += 1
             cur, _ = after_eod(op.mode, op.ver, cur, sent)
@@ -425,7 +727,7 @@ def oracle_fsm(op, items):
 def clause(op):
     return {"range": "range-check", "opt": "mode-application", "init": "init-range", "mgrinit": "init-range",
             "eod": "eod-intervals" if op.kind == "eod" and op.pv == 1 else "v0-unchanged", "wait": "poll-deadline",
-            "setmode": "mode-application",
+            "setmode": "mode-application", "waitf": "poll-deadline",
             "fsm": "poll-deadline"}[op.kind]
 
 
@@ -460,7 +762,7 @@ def _run(rep, pid, tier):
 
     r = vlib.rng(pid)
     ops = []
-    for _f, ls in constcheck.corpus_lines({"range", "opt", "init", "mgrinit", "eod", "wait", "fsm", "setmode"}):
+    for _f, ls in constcheck.corpus_lines({"range", "opt", "init", "mgrinit", "eod", "wait", "waitf", "fsm", "setmode"}):
         for l in ls:
             o = parse_op(l)
             if o is not None:
@@ -477,7 +779,8 @@ def _run(rep, pid, tier):
         return rep.finish()
 
     stats = {"corpus_lines": ncorpus, "ops": {}, "rc": {}, "eod_mode_x_version": {}, "eod_field_class": {}, "wait_events": {},
-             "fsm_events": {}, "init_outcomes": {}, "crashes": len(crashes), "opt_mode_x_type": {}}
+             "fsm_events": {}, "init_outcomes": {}, "crashes": len(crashes), "opt_mode_x_type": {}, "fragment_timing": {},
+             "waitf_pdu": {}, "recv_calls_checked": 0}
     fails, diverge = [], []
     distinct = set()
     evals = 0
@@ -505,6 +808,8 @@ def _run(rep, pid, tier):
             bump(stats["opt_mode_x_type"], "m%d:t%d" % (op.mode, op.ty))
         elif op.kind == "wait":
             bump(stats["wait_events"], op.ev)
+        elif op.kind == "waitf":
+            bump(stats["waitf_pdu"], op.pdu)
         elif op.kind == "fsm":
             for e in op.evs:
                 bump(stats["fsm_events"], e[0])
@@ -514,6 +819,10 @@ def _run(rep, pid, tier):
             distinct.add((op.kind, io if op.kind != "fsm" else op.line))
         for m in oracle(op, io):
             fails.append((k, clause(op), m))
+        for c in getattr(op, "classes", ()):
+            bump(stats["fragment_timing"], c)
+        if op.kind in ("waitf", "fsm"):
+            stats["recv_calls_checked"] += sum(1 for i in io.split() if i[:1] == "R")
         if io != mo:
             diverge.append((k, io, mo))
 
@@ -522,7 +831,9 @@ def _run(rep, pid, tier):
         "rule": "boundary values of each RFC 8210 range (ends +-1, 0, 2^16 aliases, 2^32-1) x 4 declared modes (+ undeclared mode "
                 "values) x 3 fields x versions (1/1, 0/0, live downgrade 1/0, mismatch 0/1) through the real rtr_sync; direct calls of "
                 "the range/option functions; rtr_init / rtr_mgr_init on boundary settings; rtr_wait_for_sync with a fake clock before/at/"
-                "after the deadline; the real state-machine thread against a scripted cache; plus seeded random values.  "
+                "after the deadline; rtr_wait_for_sync while the PDU arrives in fragments aimed at the deadline -1/0/+1 and at the end "
+                "of the RTR_RECV_TIMEOUT slack -1/0/+1 (every transport receive call checked; required timing classes: " + ", ".join(FRAG_CLASSES) +
+                "); the real state-machine thread against a scripted cache (incl. fragmented notifies); plus seeded random values.  "
                 "distinct_nontrivial = distinct (operation kind, implementation reply) pairs, replies of in-range range checks excluded",
         "traces_validated_against_impl": evals - len(diverge),
         "distribution": stats,
@@ -530,7 +841,8 @@ def _run(rep, pid, tier):
     for o, io in list(zip(ops, impl))[ncorpus + 400:ncorpus + 403] + [(o, io) for o, io in zip(ops, impl) if o.kind == "fsm"][:2]:
         rep.sample({"op": o.line, "impl": io})
     rep.assumptions = ["the transport is a scripted struct tr_socket; the monotonic clock is clock_gettime() of the harness",
-                       "the clock does not advance inside one transport call except as scripted",
+                       "the clock advances inside a transport receive call only as scripted (arrival time of a fragment, or the "
+                       "timeout the call was given)",
                        "time_t arithmetic does not overflow (clock values < 2^62)"]
 
     seen = set()
@@ -545,6 +857,10 @@ def _run(rep, pid, tier):
         rep.violation(cl, "# property C17 (%s) fails on the implementation: %s\n# replay: feed this line to the harness (consts_harness.c)\n"
                       "%s\n# observed: %s\n# model   : %s\n%s" % (cl, msg, lines[k], impl[k], model[k], err),
                       signature="C17/" + cl)
+    missing = [c for c in FRAG_CLASSES if not stats["fragment_timing"].get(c)]
+    if missing and not fails and not crashes:
+        rep.build_log = "fragment timing classes exercised: %r" % (stats["fragment_timing"],)
+        vlib.proof_failure(rep, "coverage gate (C17 poll deadline under fragmented delivery): never exercised: " + ", ".join(missing))
     if diverge and not fails:
         k, io, mo = diverge[0]
         rep.build_log = "line %d: %s\n impl : %s\n model: %s" % (k, lines[k], io, mo)
